@@ -65,3 +65,72 @@ Proof.
   eexists. split; [reflexivity|]. simpl. split; assumption.
 Qed.
 End Commit.
+
+(* ======================================================================== *)
+(* CPU side of the commit step                                               *)
+(* ======================================================================== *)
+From Verif Require Import Cpumem.SchedCase Cpumem.SchedProofsFit Cpumem.SchedProofsFit2 Cpumem.SchedProofsTop
+  Cpumem.SchedProofsCommit.
+
+Section CommitCPU.
+Variable sortf : list keyed -> outcome (list keyed).
+Hypothesis sortf_perm : forall l, exists l', sortf l = Types.Ok l' /\ Permutation l' l.
+Variables (base maxshare : Z) (raw req : wreq) (orders : string -> list string).
+
+(* the recorded cpu maps of an accepted allocation have distinct cores *)
+Lemma accepted_cpumaps_nodup (n : pnode) count eps ws :
+  wreq_validate raw = inr req -> 0 < base -> wf_maps (snd n) -> NoDup (orders (fst n)) ->
+  calculate_deploy_g sortf (snd n) base maxshare count raw (orders (fst n)) (default_fuel (snd n)) = Types.Ok (inr (eps, ws)) ->
+  Forall (fun w => NoDup (keys (wr_cpumap w)) /\ NoDup (keys (wr_numamem w))) ws.
+Proof.
+  intros Hv Hb Wf Nd H. destruct (rq_bind req) eqn:Eb.
+  - destruct (deploy_struct sortf _ _ _ _ _ _ _ _ _ _ H Hv Eb) as (plans & Ep & _ & _ & ->).
+    destruct (get_cpu_plans_content sortf sortf_perm _ _ _ _ _ _ _ _ Ep Hb (proj2 Wf) Nd (avail_nodup (snd n) Wf))
+      as (_ & _ & Sh).
+    apply Forall_forall. intros w Hw. apply in_map_iff in Hw. destruct Hw as (tp & <- & Htp).
+    assert (Htp' : In tp plans).
+    { clear -Htp. revert Htp. generalize (Z.to_nat count) as k. induction plans as [|h t IH]; intros [|k] H; simpl in *; try tauto.
+      destruct H as [->|H]; [left; reflexivity|right; eapply IH; eauto]. }
+    destruct (Sh tp Htp') as (IDS & _ & p0 & fr & _ & Hnd & _). split; [exact Hnd|].
+    unfold mk_wr. cbn [wr_numamem]. destruct (fst tp); [constructor|]. simpl. constructor; [tauto|constructor].
+  - unfold calculate_deploy_g in H. rewrite Hv, Eb in H. cbn [negb] in H.
+    injection H as H. unfold do_alloc_by_memory in H.
+    destruct (fgt _ _); [discriminate|]. destruct (_ && _); [discriminate|].
+    injection H as _ <-. apply Forall_forall. intros w Hw. apply repeat_n_in in Hw. subst w.
+    simpl. split; constructor.
+Qed.
+
+(* (d, cpu) along the path: on every node that received instances the usage of every core
+   grows by exactly what the recorded workloads bind on it, and the node record stays valid
+   (in particular: per-core usage <= capacity, memory usage <= capacity) *)
+Theorem deploy_path_commit_cpu nodes caps morder status need limit s p n :
+  path_hyps sortf base maxshare raw req orders nodes caps morder status need limit ->
+  0 < base -> valid_node (snd n) = true -> NoDup (orders (fst n)) -> ~ In EmptyString (orders (fst n)) ->
+  deploy_path sortf base maxshare raw orders nodes morder status s need limit = PResult (Model.Ok p) ->
+  In n nodes -> 1 <= mget p (fst n) ->
+  exists eps ws,
+    calculate_deploy_g sortf (snd n) base maxshare (mget p (fst n)) raw (orders (fst n)) (default_fuel (snd n))
+      = Types.Ok (inr (eps, ws)) /\
+    node_after sortf base maxshare raw orders n (mget p (fst n)) = Some (commit_usage (snd n) ws) /\
+    length ws = Z.to_nat (mget p (fst n)) /\
+    (forall id, Types.lookup 0 (nr_cpumap (ni_usage (commit_usage (snd n) ws))) id =
+                Types.lookup 0 (nr_cpumap (ni_usage (snd n))) id + used (map wr_cpumap ws) id) /\
+    validate_ok (commit_usage (snd n) ws) = true.
+Proof.
+  intros Hh Hb Hvn Nd Hne Hd Hn Hp.
+  pose proof (deploy_path_alloc_accepted sortf base maxshare raw req orders nodes caps morder status need limit s p n Hh Hd Hn Hp) as Ha.
+  destruct Hh as (Hv & _).
+  unfold alloc_accepts in Ha. unfold node_after.
+  destruct (calculate_deploy_g sortf (snd n) base maxshare (mget p (fst n)) raw (orders (fst n)) (default_fuel (snd n)))
+    as [[e|[eps ws]]| | |] eqn:E; try discriminate.
+  exists eps, ws. split; [reflexivity|]. split; [reflexivity|].
+  destruct (accepted_commit sortf base maxshare raw req orders n (mget p (fst n)) eps ws Hv ltac:(lia) E) as (Hl & _ & _).
+  split; [exact Hl|].
+  destruct (valid_node_wf (snd n) Hvn) as (Wf & _).
+  pose proof (accepted_cpumaps_nodup n (mget p (fst n)) eps ws Hv Hb Wf Nd E) as Hnd.
+  destruct (commit_fold_spec ws Hnd (ni_usage (snd n))) as (A & _).
+  split; [exact A|].
+  exact (proj1 (deploy_commit_valid sortf sortf_perm (snd n) base maxshare (mget p (fst n)) raw (orders (fst n))
+                  (default_fuel (snd n)) eps ws E Hvn Nd Hne Hb ltac:(lia))).
+Qed.
+End CommitCPU.
